@@ -579,3 +579,52 @@ var ErrorSites = func() []struct{ Src, In string } {
 	}
 	return out
 }()
+
+// Chains: chains of three operands of one binary operator, each operand drawn from values the query
+// does not own (parts of the input, null and empty ones among them, a missing key, a literal), with
+// the input looked at again afterwards. An operator may hand back one of its operands unchanged
+// (`{} + r` is r itself); a later link of the chain must not take that for an intermediate of its own.
+var Chains = func() []struct{ Src, In string } {
+	var out []struct{ Src, In string }
+	in := `{"a":{"p":1,"q":{"r":[1]}},"z":{"s":2,"q":{"t":3}},"e":{},"k":[1,2,3],"l":[],"m":[3,4],"n":null,"s":"x","t":"","i":1,"j":0}`
+	objs := []string{".a", ".z", ".e", ".n", ".nokey", "{}", "null", `{"lit": 1}`}
+	for _, a := range objs {
+		for _, b := range objs {
+			for _, c := range objs {
+				out = append(out, struct{ Src, In string }{"(" + a + " + " + b + " + " + c + "), .", in})
+			}
+		}
+	}
+	arrs := []string{".k", ".l", ".m", ".n", "[]", "null", "[9]"}
+	for _, a := range arrs {
+		for _, b := range arrs {
+			for _, c := range arrs {
+				out = append(out, struct{ Src, In string }{"(" + a + " + " + b + " + " + c + "), .", in})
+			}
+		}
+	}
+	mobjs := []string{".a", ".z", ".e", "{}", `{"q": {"u": 1}}`}
+	for _, a := range mobjs {
+		for _, b := range mobjs {
+			for _, c := range mobjs {
+				out = append(out, struct{ Src, In string }{"(" + a + " * " + b + " * " + c + "), .", in})
+			}
+		}
+	}
+	sarrs := []string{".k", ".l", ".m", "[]", "[1]"}
+	for _, a := range sarrs {
+		for _, b := range sarrs {
+			for _, c := range sarrs {
+				out = append(out, struct{ Src, In string }{"(" + a + " - " + b + " - " + c + "), .", in})
+			}
+		}
+	}
+	for _, src := range []string{
+		`.s + .t + .s`, `.t + .s + .t`, `.n + .s + .t`, `.i + .j + .n`, `.n + .n + .a`, `.a + .n + .n + .z`, `.e + .a + .e + .z + .e`, `.l + .k + .l + .m + .l`, `(.a + .e) + .z`, `.a + (.e + .z)`, `.e + .a | . + .z`, `[.e, .a, .z] | .[0] + .[1] + .[2]`,
+		`. as $d | $d.e + $d.a + $d.z`, `.e as $e | .a as $a | $e + $a + .z`, `reduce (.a, .z) as $o (.e; . + $o)`, `reduce (.e, .a, .z) as $o (null; . + $o)`, `.a + .e + .z | .new = 1`, `(.e + .a + .z), (.e + .a + .z)`, `.k + .l + .m | .[0] = 9`, `.a * .e * .z | .q.w = 1`,
+		`.e + .a + {"x": 1}`, `{} + .a + {"x": 1}`, `null + .a + {"x": 1}`, `.a + {} + {"x": 1}`, `.a + null + {"x": 1}`, `.nokey + .a + .z`, `.a + .nokey + .z`, `{"kind": "item"} + .nokey + .z`, `{"kind": "item"} + .e + .z`, `.a + .z + .a`, `.a - 0? , (.e + .a + .z)`,
+	} {
+		out = append(out, struct{ Src, In string }{"(" + src + "), .", in})
+	}
+	return out
+}()
